@@ -77,6 +77,10 @@ pub struct Inv {
     /// free-form role tag used by the oracles ("ref", "var", "good", "poisoned", "skipped", ...)
     #[serde(default)]
     pub role: String,
+    /// clock skew of the inputs: 0 = timestamps as written, 1 = sources and config older than every
+    /// output file, 2 = sources and config from the future
+    #[serde(default)]
+    pub src_age: u8,
 }
 
 impl Inv {
@@ -110,6 +114,10 @@ pub struct Case {
     /// free-form notes from the generator (what was planted where); informational
     #[serde(default)]
     pub notes: Vec<String>,
+    /// files present in the output location before the first operation (name relative to the
+    /// output location, content): leftovers of other tools or of earlier versions
+    #[serde(default)]
+    pub preseed: Vec<(String, String)>,
 }
 
 /// A violation found by an oracle.
